@@ -25,6 +25,7 @@ type LoopSpec struct {
 	Invariants []*Clause
 	Decreases  *Clause
 	Steps      []*Clause // obligations at the back edge only ("whenever the loop goes round again, ...")
+	Unroll     int       // >0: the loop is unrolled; reaching the head more than Unroll+1 times is an obligation (unwinding assertion), so the unrolling is complete when it discharges
 }
 
 type FuncContract struct {
@@ -42,6 +43,9 @@ type FuncContract struct {
 	HasMod    bool
 	ModAll    bool // "modifies *": callers havoc everything type-reachable
 	Loops     map[int]*LoopSpec
+	// loop specifications for loops of callees that are inlined into this function, written
+	// in this function's vocabulary: key = callee name (RelString form), then loop ordinal
+	InlinedLoops map[string]map[int]*LoopSpec
 	Decreases *Clause
 	Where     string
 	Implements []string
@@ -290,7 +294,27 @@ func (cs *Contracts) LoadLines(pkg string, lines []string, wheres []string) erro
 				}
 				cur.Modifies = append(cur.Modifies, e)
 			}
-		case "loop":
+		case "loop", "inlined":
+			loopsMap := map[int]*LoopSpec(nil)
+			if cur != nil {
+				loopsMap = cur.Loops
+			}
+			if fields[0] == "inlined" {
+				// inlined <callee> loop N <kind> ...
+				if cur == nil || len(fields) < 6 || fields[2] != "loop" {
+					return fmt.Errorf("%s: bad inlined-loop clause (inlined <callee> loop N kind ...)", where)
+				}
+				if cur.InlinedLoops == nil {
+					cur.InlinedLoops = map[string]map[int]*LoopSpec{}
+				}
+				if cur.InlinedLoops[fields[1]] == nil {
+					cur.InlinedLoops[fields[1]] = map[int]*LoopSpec{}
+				}
+				loopsMap = cur.InlinedLoops[fields[1]]
+				fields = fields[2:]
+				line = strings.TrimSpace(strings.SplitN(line, fields[0]+" ", 2)[1])
+				line = "loop " + strings.TrimSpace(strings.TrimPrefix(line, "loop"))
+			}
 			if cur == nil || len(fields) < 4 {
 				return fmt.Errorf("%s: bad loop clause", where)
 			}
@@ -299,6 +323,17 @@ func (cs *Contracts) LoadLines(pkg string, lines []string, wheres []string) erro
 				return fmt.Errorf("%s: bad loop ordinal", where)
 			}
 			kind := fields[2]
+			if kind == "unroll" {
+				k, err := strconv.Atoi(fields[3])
+				if err != nil || k < 1 || k > 16 {
+					return fmt.Errorf("%s: loop unroll needs a count in 1..16", where)
+				}
+				if loopsMap[n] == nil {
+					loopsMap[n] = &LoopSpec{}
+				}
+				loopsMap[n].Unroll = k
+				break
+			}
 			r := strings.TrimSpace(strings.SplitN(line, kind, 2)[1])
 			attr := ""
 			if ix := strings.Index(kind, "["); ix > 0 {
@@ -313,10 +348,10 @@ func (cs *Contracts) LoadLines(pkg string, lines []string, wheres []string) erro
 			if err != nil {
 				return err
 			}
-			ls := cur.Loops[n]
+			ls := loopsMap[n]
 			if ls == nil {
 				ls = &LoopSpec{}
-				cur.Loops[n] = ls
+				loopsMap[n] = ls
 			}
 			if kind == "invariant" {
 				ls.Invariants = append(ls.Invariants, c)
